@@ -54,6 +54,12 @@ def call_one(bp, m, wl, thr, area):
         return guarded(lambda: getattr(bp, m)(area, **kw))
     if m.endswith('_thr'):
         return guarded(lambda: getattr(bp, m[:-4])(threshold=thr, **kw))
+    if m == 'equivwidth':
+        # equivwidth() by itself follows conf.default_integrator (documented: "see integrate"); the trapezoid quantity
+        # the property speaks of is asked for by name when a configuration twin has switched the default
+        from synphot import conf
+        if conf.default_integrator != 'trapezoid':
+            kw = dict(kw, integration_type='trapezoid')
     return guarded(lambda: getattr(bp, m)(**kw))
 
 
